@@ -15,7 +15,7 @@ import time
 import pickle
 import hashlib
 import traceback
-import faulthandler
+import signal
 
 from . import world as W
 from . import compare as C
@@ -38,7 +38,10 @@ def in_child(fn, args, timeout=CHILD_TIMEOUT):
         code = 0
         try:
             os.close(r)
-            faulthandler.dump_traceback_later(timeout, exit=True)
+            # fork-safe watchdog (faulthandler's watchdog thread deadlocks
+            # when re-armed in a forked grandchild)
+            signal.signal(signal.SIGALRM, signal.SIG_DFL)
+            signal.alarm(int(timeout))
             try:
                 res = ('ok', fn(*args))
             except BaseException:
@@ -220,9 +223,8 @@ def run_world(plan, keep=False):
                         success = not any(k.startswith('exc') or k == 'dead' for k in ora)
                         if rec.get('had_history') and success:
                             lk = tuple(sorted(f for f in t.get('features', []) if f.startswith('load_')))
-                            for name in sec:
-                                nontrivial.add((t.get('template'), t.get('env'), lk,
-                                                rec.get('abstract'), name.split('[')[0]))
+                            nontrivial.add((t.get('template'), t.get('env'), lk,
+                                            rec.get('abstract'), kind))
                         else:
                             trivial += 1
             prior[ti].append(op)
